@@ -432,6 +432,8 @@ func checkC17(c *Ctx, r *Report) {
 		r.Count("required_keys", nreq)
 	}
 
+	checkSchemaKeywords(c, r, fields)
+
 	// ---- schema command ----
 	checkSchemaOutputFile(c, r)
 	okCmd := false
@@ -634,4 +636,101 @@ func checkSchemaOutputFile(c *Ctx, r *Report) {
 		})
 	}
 	r.Floor("output-truncates", n, 2)
+}
+
+// the keywords the static model of the generator covers; anything else in the
+// published schema constrains documents in a way this check cannot relate to
+// the parser (pattern, propertyNames, minLength ...)
+var modelledSchemaKeywords = map[string]bool{"$schema": true, "$id": true, "$ref": true, "$defs": true, "properties": true, "additionalProperties": true,
+	"type": true, "items": true, "title": true, "description": true, "examples": true, "enum": true, "default": true, "required": true, "format": true}
+
+// checkSchemaKeywords: (S2-keywords) the published schema uses modelled
+// keywords only, and no type of the configuration customises its schema in
+// code (JSONSchema / JSONSchemaExtend / JSONSchemaAlias methods), which the
+// reflection model cannot follow; jsonschema tags carry no keyword outside the
+// modelled ones either. (S3-expand) a field constrained by an enum is not
+// rewritten by the environment expansion: its reference spelling (${VAR}) can
+// never be a member of the enum.
+func checkSchemaKeywords(c *Ctx, r *Report, fields []cfgField) {
+	raw, err := os.ReadFile(filepath.Join(c.RepoDir, "www", "docs", "static", "schema.json"))
+	if err != nil {
+		r.Unresolved("published schema", err.Error())
+		return
+	}
+	var doc any
+	if err := json.Unmarshal(raw, &doc); err != nil {
+		r.Unresolved("published schema", err.Error())
+		return
+	}
+	unknown := map[string]bool{}
+	nkw := 0
+	var walk func(x any, names bool)
+	walk = func(x any, names bool) {
+		switch v := x.(type) {
+		case map[string]any:
+			for k, ch := range v {
+				if !names {
+					nkw++
+					if !modelledSchemaKeywords[k] {
+						unknown[k] = true
+					}
+				}
+				walk(ch, !names && (k == "properties" || k == "$defs"))
+			}
+		case []any:
+			for _, ch := range v {
+				walk(ch, false)
+			}
+		}
+	}
+	walk(doc, false)
+	r.Check(len(unknown) == 0, "S2-keywords", "published schema uses modelled keywords only", "www/docs/static/schema.json",
+		fmt.Sprintf("keywords outside the model: {%s}: they restrict documents beyond what the struct tags and the parser are compared on (%d keyword occurrences read)", joinSorted(unknown), nkw))
+	// tags
+	tagKw := map[string]bool{"title": true, "description": true, "example": true, "enum": true, "default": true, "type": true, "format": true, "required": true, "-": true, "oneof_type": true}
+	for _, f := range fields {
+		for k := range f.Schema {
+			if !tagKw[strings.TrimSpace(k)] {
+				r.Fail("S2-keywords", "jsonschema tag keyword "+k+" on "+f.GoPath, c.pos(f.Var.Pos()), "the tag adds a constraint the model does not cover; the parser applies no such constraint, so a configuration that builds can be rejected by the schema")
+			}
+		}
+	}
+	// custom schema methods
+	ncustom := 0
+	for _, fn := range c.ModFuncs {
+		if fn.Signature.Recv() == nil {
+			continue
+		}
+		switch fn.Name() {
+		case "JSONSchema", "JSONSchemaExtend", "JSONSchemaAlias", "JSONSchemaProperty":
+			ncustom++
+			r.Fail("S2-keywords", "custom schema method "+c.funcKey(fn), c.pos(fn.Pos()), "a type of the configuration builds part of its schema in code: the published schema can no longer be related to the struct tags statically")
+		}
+	}
+	if ncustom == 0 {
+		r.Pass("S2-keywords", "no configuration type customises its schema in code", "-", "no JSONSchema* methods in the module")
+	}
+	// enum fields are not expanded
+	stores := expansionStorePaths(c)
+	nenum := 0
+	for _, f := range fields {
+		if len(f.Schema["enum"]) == 0 {
+			continue
+		}
+		if _, isMap := f.Type.Underlying().(*types.Map); isMap {
+			continue // the generator ignores enum on maps
+		}
+		nenum++
+		gp := "Info." + strings.TrimPrefix(f.GoPath, "Info.")
+		st, expanded := stores[f.GoPath]
+		if !expanded {
+			st, expanded = stores[gp]
+		}
+		if expanded {
+			r.Fail("S3-expand", "enumerated key "+f.YAMLPath+" is taken as written", c.instrPos(st), "the environment expansion rewrites a field whose schema is an enum: the document spells the value as a reference (${VAR}), which builds but is not a member of the enum")
+		} else {
+			r.Pass("S3-expand", "enumerated key "+f.YAMLPath+" is taken as written", c.pos(f.Var.Pos()), "not assigned by the environment expansion")
+		}
+	}
+	r.Floor("S3-expand", nenum, 5)
 }
